@@ -157,9 +157,9 @@ func TestC14_DocumentRoundTrip(t *testing.T) {
 		}
 		// a document carrying an id is refused
 		withID := deepCopyValue(doc).(map[string]interface{})
-		withID["id"] = "did:example:123"
+		withID["id"] = rapid.SampledFrom([]string{"did:example:123", " ", "\t", "\n", "\u00a0", "\u2003 ", "x", "#", "0", "null"}).Draw(t, "strayID")
 		if _, err := patch.PatchesFromDocument(refJCS(withID)); err == nil {
-			t.Fatalf("C14 PatchesFromDocument accepted a document with id")
+			t.Fatalf("C14 PatchesFromDocument accepted a document with id %q", withID["id"])
 		}
 		other := len(doc) - members
 		nested := false
